@@ -2,6 +2,7 @@ import XixiKV.Proofs.Frame
 import XixiKV.Proofs.Chunk
 import XixiKV.Proofs.Record
 import XixiKV.Proofs.Fio
+import XixiKV.Proofs.TransEq
 /-!
 # C11 — block/chunk framing round-trips every record at every offset
 
@@ -132,6 +133,38 @@ theorem C11_backends_identical (B : Nat) (hB : 0 < B) (file : Fio.OsFile) (ops :
 theorem C11_mmap_never_faults (B : Nat) (hB : 0 < B) (f : Fio.OsFile) (ops : List Fio.Op) :
     Fio.Res.fault ∉ (Fio.MMap.run B f ops).2 :=
   Fio.Fio_no_fault B hB f ops
+
+/-! ## the writer and the chunk decoder as TRANSLATED from the Go source
+
+`harness/cmd/trans` translates `(*DataFile).writeToBuf` and `DecodeChunk` from /repo's current
+source into `Generated/Trans.lean` on every run (Go subset → Lean, machine integers with explicit
+wrap-around, buffer effects as emitted segments); these theorems say that what the code computes is
+what the hand-written model computes, so every theorem of this file is about the code as it reads
+now (for the stated ranges), not only about executions that were compared. -/
+
+/-- `writeToBuf` as it stands in /repo, started in the writer state of ANY file `f`: returns the
+    position the model reports and the model's next writer state, and emits exactly the bytes the
+    model appends (padding + chunks with correct 16-bit lengths and in-bounds slices). -/
+theorem C11_translated_writeToBuf (C : Codec) (fid : Nat) (f data : ByteArray)
+    (hdata : data.size < 2^31) (hblk : f.size / BS + data.size / 32761 + 2 < 2^32) :
+    ∃ segs bytes,
+      Generated.Trans.datafile.writeToBuf fid data (f.size / BS) (f.size % BS)
+        = some (({ Fid := fid, BlockID := (posOf C fid f.size data).block,
+                   Offset := (posOf C fid f.size data).off, Size := (posOf C fid f.size data).size },
+                 (appendRec C f data).size / BS, (appendRec C f data).size % BS), segs) ∧
+      TransEq.render C data segs = some bytes ∧ f ++ bytes = appendRec C f data :=
+  TransEq.trans_writeToBuf_appendRec C fid f data hdata hblk
+
+/-- `DecodeChunk` as it stands in /repo = the model's `Chunk.dec`, for every input slice -/
+theorem C11_translated_DecodeChunk (block : ByteArray) :
+    Generated.Trans.datafile.DecodeChunk TransEq.crcNat block = TransEq.ofDecOut (Chunk.dec block) :=
+  TransEq.trans_DecodeChunk_eq block
+
+/-- the mapping arithmetic of `(*MMap).remap` as it stands in /repo = the fio model's `roundUp` -/
+theorem C11_translated_remap (newBase dataSize : Nat) (h : newBase + dataSize < 2^62) :
+    Generated.Trans.fio.remap_endOff ↑newBase ↑dataSize
+      = ↑(Fio.roundUp Generated.Trans.fio.blockSize (newBase + dataSize)) :=
+  TransEq.trans_remap_endOff_eq newBase dataSize h
 
 /-- non-vacuity: a 40 000-byte payload appended to a file that ends 3 bytes before a block boundary -/
 example : ∃ f d : ByteArray, 0 < d.size ∧ f.size % BS = 32765 ∧ d.size = 40000 :=
